@@ -185,3 +185,41 @@ def run(rep):
         ds = sc.describe(c.args[1])
         ok = all(re.search(r"MIN_RESERVE_CAPACITY|Ord::clamp\(", d) for d in ds)
         rep.check(ok, "C14-R6", sc.def_, "reserve-positive", "a reservation must ask for at least the constant minimum (or a clamped amount); asks for %s" % sorted(ds), detail={})
+
+    # ---- R7 length subtractions are ordered (added after seeded change C14d) ---------------------------------------------
+    # "delivers exactly the frames that were written": a usize subtraction of two runtime lengths in the framing code
+    # that is not dominated by a test ordering them underflows for some chunking (panic in debug, absurd reservation in
+    # release) and the stream stops delivering.  Accepted: a dominating edge minuend > / >= subtrahend, or minuend >
+    # / >= the capacity of the buffer whose length is subtracted (capacity >= len), or a constant subtrahend under a
+    # dominating test against a constant.  checked_/saturating_/wrapping_sub are calls, not Sub, and are not flagged.
+    n7 = 0
+    for d, b in sorted(prog.bodies.items()):
+        if "::test" in d or not re.match(r"^(<?aldrin_core::message::packetizer::|<?aldrin_core::transport::buffered::|<?aldrin_core::tokio::|<aldrin_core::(tokio|transport::buffered)::)", d):
+            continue
+        for i in sorted(b.live_blocks()):
+            for st in b.blocks[i]["s"]:
+                r = st["r"]
+                if r["k"] != "bin" or r["op"] not in ("Sub", "SubWithOverflow", "SubUnchecked"):
+                    continue
+                if "usize" not in (b.local_ty(st["d"][0]) or "usize"):
+                    continue
+                MA = sorted(b.describe(r["o"][0]))
+                SB = sorted(b.describe(r["o"][1]))
+                if not MA or not SB:
+                    continue
+                n7 += 1
+                gs = b.guard_strings(i)
+                ok = False
+                for a in MA:
+                    for bb_ in SB:
+                        alts = [bb_, re.sub(r"::len\(", "::capacity(", bb_)]
+                        for x in alts:
+                            for op in ("Gt", "Ge"):
+                                if "True=%s(%s, %s)" % (op, a, x) in gs:
+                                    ok = True
+                        if bb_.startswith("const:") and any(g.startswith("True=Gt(%s, const:" % a) or g.startswith("True=Ge(%s, const:" % a) for g in gs):
+                            ok = True
+                rep.check(ok, "C14-R7", d, "ordered-subtraction:%s-%s" % ("|".join(MA), "|".join(SB)),
+                          "a subtraction of runtime lengths in the framing code must be dominated by a test that orders its operands (minuend >= subtrahend, or minuend >= the capacity of the buffer whose length is subtracted); %s - %s is only guarded by %s" % (MA, SB, [g for g in gs if g.startswith(("True", "False", "Some"))][:4]),
+                          line=st["l"], detail={"guards": gs[:12]})
+    rep.floor("C14-R7", "length subtractions in the framing code", n7, 1)
